@@ -1,6 +1,7 @@
 """C10 — replica swaps use the exact Metropolis probability and swap only configurations."""
 from checks import pure_fns
 from checks import api_cov
+from checks import scale_inv
 LEAN_TARGETS = ["QmcProps.C10", "drv_c10"]
 BINS = ["c10"]
 
@@ -69,4 +70,5 @@ def main(ck):
         ck.assumptions.append("swapProb_exact: both strings legal for their own Hamiltonian (C07), beta > 0, Hamiltonians well formed (nvars derived from the edges) and accepted by can_swap_managers; equal cutoffs are established by the step itself (cutoffs_equal_after_step)")
         ck.assumptions.append("probability = threshold/2^52 of a uniform 52-bit grid draw (accept_grid); f64 rounding of division/powi absorbed by the 1e-9 tolerance")
     api_cov.run(ck, "c10")   # otherwise unexercised public API, model-free oracles of this property
+    scale_inv.run(ck, "c10")   # power-of-two unit change: identical trajectory, energies exactly scaled (model-free twin oracle)
     return ck.finish(RULE)
